@@ -42,18 +42,29 @@ LEVEL_TEXT = ("Lean proof over the modelled normaliser (ints, bools, floats, str
               "is a function of (dtype, shape, logical elements) and determines them; joined text + lengths of object "
               "arrays determine the elements; Python repr of str / bytes / ints is self-delimiting and repr of the nested "
               "token tuples is uniquely readable, so for plain data equal md5 pre-images imply observably equal values "
-              "(preimage_injective). The model's pre-image string is compared with the real tokenize() bit for bit on "
-              "every run.")
-LEVEL_NOTE = ("md5 and hash_buffer_hex are assumed injective (trusted); CPython repr of float, dtype and type objects are "
-              "atoms (the printed-form injectivity theorem covers ints, bools, None, str, bytes and containers of them); "
-              "pickle-based normalisation (callables, arbitrary objects), pandas normalisers, dataclasses and partials are "
-              "validated by the oracle only; recursive containers (__seen) are validated only.")
+              "(preimage_injective). NumPy-backed pandas objects (Index, RangeIndex, Series, DataFrame column by column, "
+              "Categorical): pnorm a = pnorm b <-> the objects agree in class, names, dtypes and, up to memory layout, values "
+              "(ptoken_iff; collision freedom also across the classes, determinism independent of views / block layout). "
+              "The dispatch table extracted from dask/tokenize.py is accounted for class by class (registry_complete, "
+              "modelled_registered, one_normaliser_per_class) and compared with the table of the running interpreter. The "
+              "retry loop of the pickle fallback is transliterated (pickle_stable, pickle_unstable_flagged, "
+              "pickle_token_is_an_attempt) and run on scripted pickles (all 64 scripts). The models' pre-image strings "
+              "(plain data, recursive containers, pandas objects) are compared with the real tokenize() bit for bit on every run.")
+LEVEL_NOTE = ("md5 and hash_buffer_hex are assumed injective on the values compared (trusted); CPython repr of float, dtype "
+              "and type objects are atoms (the printed-form injectivity theorem covers ints, bools, None, str, bytes and "
+              "containers of them); rnorm_eq_norm proves that the __seen bookkeeping is invisible on acyclic values, genuine "
+              "cycles are validated by exact pre-image only; extension-array backed pandas objects (nullable, Arrow, tz-aware, "
+              "period, interval, sparse), MultiIndex, the pickle bytes themselves (callables, arbitrary objects), "
+              "dataclasses and partials are validated by the oracle-only sections (near-miss pairs, copy / deepcopy / "
+              "pickle round trips, fresh interpreters with another hash seed).")
 TECHNIQUE = "Lean 4 proof (structural induction over a nested value type) + differential correspondence on the md5 pre-image"
 ASSUMPTIONS = ["hashlib.md5 and dask.hashing.hash_buffer_hex are injective on the inputs compared",
                "CPython repr(float), repr(numpy.dtype), repr(type) are injective (carried as atoms)",
                "str code points >= 0x80 that are generated are printable (repr leaves them unescaped)",
-               "utf-8 encoding is injective"]
-TRUSTED = ["harness/props/_token_util.py: encoding of Python values as Lean `Val`, interning of array elements, digest placeholders"]
+               "utf-8 encoding is injective",
+               "pickle.dumps / cloudpickle.dumps of equal objects give equal bytes where the pickle fallback is used (validated)"]
+TRUSTED = ["harness/props/_token_util.py: encoding of Python values as Lean `Val`, interning of array elements, digest placeholders",
+           "harness/props/c12.py enc_pandas: reading name / dtype / values / index off pandas objects through their public attributes (and ._values)"]
 
 
 # ----------------------------------------------------------------------------------------------
@@ -376,6 +387,10 @@ CATALOG = [
     ("np.array(['ab', 'c'])", "U:ab,c"), ("np.array(['a', 'bc'])", "U:a,bc"), ("np.array([b'ab', b'c'])", "S:ab,c"),
     ("np.array(['2000-01-01', '2000-01-02'], dtype='M8[D]')", "M8D:1,2"), ("np.array(['2000-01-01', '2000-01-02'], dtype='M8[ns]')", "M8ns:1,2"),
     ("np.rec.fromarrays([[1, 2], [3., 4.]], names='a,b')", "rec:ab"), ("np.rec.fromarrays([[1, 2], [3., 4.]], names='a,c')", "rec:ac"),
+    # aligned records: the bytes between the fields are not part of the value
+    ("_padded_rec(0, [0, 0, 0])", "recpad:000"), ("_padded_rec(0xAB, [0, 0, 0])", "recpad:000"), ("_padded_rec(0xAB, [0, 5, 0])", "recpad:050"),
+    ("_padded_rec(0, [0, 5, 0])", "recpad:050"), ("_padded_rec(0x11, [0, 0, 0], nested=True)", "recpad-n:000"),
+    ("_padded_rec(0xEE, [0, 0, 0], nested=True)", "recpad-n:000"), ("_padded_rec(0xEE, [1, 0, 0], nested=True)", "recpad-n:100"),
     # pandas objects reached by different construction routes: the internal layout (blocks, views, strides, memory order)
     # differs, the observable frame / series / index does not
     ("pd.DataFrame({'a': [1, 2], 'b': [3, 4], 'c': [5, 6]})", "frame:abc"), ("_df_setitem()", "frame:abc"), ("_df_setitem().copy()", "frame:abc"),
@@ -406,6 +421,23 @@ CATALOG = [
     ("pd.Categorical(['a', 'b', 'a'])", "cat:aba"), ("pd.Categorical(['a', 'b', 'a', 'b'])[:3]", "cat:aba"),
     ("pd.Categorical.from_codes([0, 1, 0], ['a', 'b'])", "cat:aba"), ("pd.Categorical(['a', 'b', 'b'])", "cat:abb"),
 ]
+
+
+def _padded_rec(fill, bs, nested=False):
+    """an aligned record array over a buffer pre-filled with `fill`: field a = 0, field b = bs (padding keeps `fill`)"""
+    import numpy as np
+    dt = np.dtype([("a", "u1"), ("b", "i4")], align=True)
+    if nested:
+        dt = np.dtype([("p", dt), ("q", "f8", (2,))])
+    x = np.full(len(bs) * dt.itemsize, fill, dtype="u1").view(dt).copy()
+    if nested:
+        x["p"]["a"] = 0
+        x["p"]["b"] = bs
+        x["q"] = 0
+    else:
+        x["a"] = 0
+        x["b"] = bs
+    return x
 
 
 def _df_setitem():
@@ -462,7 +494,7 @@ def _cat_value(src):
     import tlz as toolz
     ns = dict(np=np, pd=pd, dask=dask, toolz=toolz, operator=operator, functools=functools, collections=collections,
               types=types, uuid=uuid, _rec_list=_rec_list, _rec_dict=_rec_dict, _rec_tuple_list=_rec_tuple_list,
-              _df_setitem=_df_setitem, _df_mixed_setitem=_df_mixed_setitem, _df_axb_setitem=_df_axb_setitem)
+              _df_setitem=_df_setitem, _df_mixed_setitem=_df_mixed_setitem, _df_axb_setitem=_df_axb_setitem, _padded_rec=_padded_rec)
     return eval(src, ns)
 
 
